@@ -144,6 +144,12 @@ CANARIES = [
     ('overlay-wrong-node', 'C07', 'src/bucket.rs', '                    PageNode::Node(self.nodes[*node_id as usize].clone())\n                } else {', '                    PageNode::Node(self.nodes[(*node_id as usize).saturating_sub(1)].clone())\n                } else {'),
     ('overlay-node-id-as-page', 'C07', 'src/bucket.rs', '            PageNodeID::Node(node) => PageNode::Node(self.nodes[node as usize].clone()),\n        }\n    }\n\n    pub fn get', '            PageNodeID::Node(node) => PageNode::Page(self.pages.page(node)),\n        }\n    }\n\n    pub fn get'),
     ('pagenode-id-of-page-is-count', 'C07', 'src/page_node.rs', '            PageNode::Page(p) => PageNodeID::Page(p.id),', '            PageNode::Page(p) => PageNodeID::Page(p.count),'),
+    ('check-ignores-overflow-runs', 'C05', 'src/tx.rs', '            for i in 0..page.overflow {\n                let page_id = page_id + i + 1;', '            for i in 0..page.overflow.min(1) {\n                let page_id = page_id + i + 1;'),
+    ('check-accepts-leftover-pages', 'C05', 'src/tx.rs', '        if !unused_pages.is_empty() {\n            return Err(Error::InvalidDB(format!(\n                "Unreachable pages {:?}",\n                unused_pages,\n            )));\n        }\n', ''),
+    ('check-skips-branch-children', 'C05', 'src/tx.rs', '                        page_stack.push(b.page);\n', ''),
+    ('check-allows-equal-keys', 'C05', 'src/tx.rs', '                            if last >= b.key() {', '                            if last > b.key() {'),
+    ('check-tolerates-double-use', 'C05', 'src/tx.rs', '            if !unused_pages.remove(&page_id) {\n                return Err(Error::InvalidDB(format!(\n                    "Page {} missing from unused_pages",\n                    page_id,\n                )));\n            }\n', '            unused_pages.remove(&page_id);\n'),
+    ('check-ignores-free-list-entries', 'C05', 'src/tx.rs', '                    for page_id in page.freelist() {\n                        if !unused_pages.remove(page_id) {', '                    for page_id in page.freelist().iter().skip(1) {\n                        if !unused_pages.remove(page_id) {'),
 ]
 
 
